@@ -477,7 +477,7 @@ func main() {
 		next <- i
 	}
 	close(next)
-	for wk := 0; wk < 6; wk++ {
+	for wk := 0; wk < 20; wk++ { // latency-bound: a failing fan-out is retried 3 times with 1.4 s of sleeps
 		wg.Add(1)
 		go func() {
 			defer wg.Done()
